@@ -31,7 +31,7 @@ ASSUMPTIONS = ["'no timer or task remains' is observed eight loop turns after sh
 
 def bounds(tier):
     return {"phases": ["refusing", "connecting", "handshake", "initialised", "pending", "after_failed_init", "backoff"],
-            "socket_level_close": ["down_queue", "connecting", "write_suspended", "backoff"],
+            "socket_level_close": ["down_queue", "connecting", "write_suspended", "write_suspended_lost", "backoff", "fault_then_slow_connect", "fault_then_slow_close"],
             "shutdown_instant": "symbolic within the phase's window", "race_with_handshake_answer": "steps 0..5 x 0..23 (thorough also 0..47) loop turns after the request, same instant", "race_other_anchors": "0..23 loop turns after: first connection accepted; link reset with immediate reconnect; a zone status push with subscribers", "idle_horizon_s": 700, "reinit": True,
             "second_shutdown_of_the_new_session": tier == "thorough"}
 
@@ -52,7 +52,7 @@ def instances(tier):
         out.append({"phase": "connecting", "gen": g, "quick_reinit": True})        # init() again while the old connect is still in flight
         out.append({"phase": "connecting", "gen": g, "quick_reinit": True, "close_latency": 0.0625})
         out.append({"phase": "initialised", "gen": g, "quick_reinit": True, "close_latency": 0.0625})   # init() again while shutdown() is still closing
-        for sc in ("down_queue", "connecting", "write_suspended", "write_suspended_lost", "backoff", "fault_then_slow_connect"):
+        for sc in ("down_queue", "connecting", "write_suspended", "write_suspended_lost", "backoff", "fault_then_slow_connect", "fault_then_slow_close"):
             out.append({"phase": "sock_close", "gen": g, "scenario": sc})
         for st in range(6):
             out.append({"phase": "race", "gen": g, "step": st})
@@ -393,7 +393,7 @@ def _sock_close(ctx, p):
     g = Gen(p["gen"])
     sc = p["scenario"]
     entry = catalog.catalog(g)[3]
-    mode = {"accept": sc in ("connecting", "write_suspended", "write_suspended_lost", "backoff", "fault_then_slow_connect")}
+    mode = {"accept": sc in ("connecting", "write_suspended", "write_suspended_lost", "backoff", "fault_then_slow_connect", "fault_then_slow_close")}
     lat = 3.0 if sc == "connecting" else 0
     ts = ctx.real("ts", 0, 7) if sc != "backoff" else ctx.real("ts", 1, 8)
     if sc == "fault_then_slow_connect":
@@ -401,10 +401,17 @@ def _sock_close(ctx, p):
         # fails: two connection attempts are then pending (the immediate one of the reset, which takes 1 s, and the delayed
         # retry of the attempt that has just failed); close() falls into that second
         ts = 0.75 + ctx.real("dts", 0, 1.0, lo_strict=True)
+    if sc == "fault_then_slow_close":
+        # the write of a command that may be repeated fails at 0.5 s and the client tears the dead connection down, which takes
+        # half a second (slow transport close); close() falls into that tear-down
+        ts = 0.5 + ctx.real("dts", 0, 0.5, lo_strict=True)
     with Rig(ctx, g) as rig:
         if p.get("close_latency"):
             rig.net.close_latency = p["close_latency"]
         rig.net.on_connect = lambda net, n: (("accept", lat) if mode["accept"] else ("refuse",))
+        if sc == "fault_then_slow_close":
+            rig.net.close_latency = 0.5
+            rig.net.on_drain = lambda conn, n: (ConnectionResetError("write fault") if (conn.index == 0 and n == 1) else None)
         if sc in ("write_suspended", "write_suspended_lost"):
             rig.net.on_drain = lambda conn, n: 4.0        # back-pressure: every drain() takes 4 s
         if sc == "fault_then_slow_connect":
